@@ -12,6 +12,7 @@ the pipeline model that instantiates its stages is compared with (a) when it is 
 import json
 import os
 import random
+import re
 import subprocess
 import sys
 import tempfile
@@ -71,6 +72,109 @@ def call_once(method, cfg, pil, case):
     return {"rows": canon_rows(res)}
 
 
+# --------------------------------------------------------------------------------------------------
+# command-line runs under several hash seeds
+# --------------------------------------------------------------------------------------------------
+# list-valued options that belong to other input formats than the default (Percolator / MaxQuant) path
+OTHER_INPUT_OPTIONS = {"--fragpipe_psm", "--combined_ion", "--sage_results", "--sage_lfq_tsv", "--diann_reports"}
+DIG_OPTIONS = ["--enzyme", "--digestion", "--min-length", "--max-length", "--cleavages", "--special-aas"]
+
+# fixed profiles of the first command-line cases of every run (the rest is random): together they give every
+# list-valued option of the default path several values in every run
+CLI_PROFILES = [
+    {"n_fasta": 2, "inputs": ["perc"], "n_ev": 1, "remap": True, "default_method": True, "dups": True},
+    {"n_fasta": 3, "inputs": ["mq"], "n_ev": 2, "remap": True, "dups": True},
+    {"n_fasta": 2, "inputs": ["mq"], "n_ev": 1, "remap": "both"},
+    {"n_fasta": 1, "inputs": ["mq"], "n_ev": 2, "n_sets": 2, "remap": True, "several": ["--enzyme", "--cleavages", "--min-length"]},
+    {"n_fasta": 2, "inputs": ["mq", "perc"], "n_ev": 2, "n_sets": 2, "remap": True, "several": ["--digestion", "--max-length", "--special-aas"]},
+    {"map": True, "n_map": 2, "inputs": ["perc"], "n_ev": 2, "remap": True},
+    {"n_fasta": 3, "inputs": ["perc"], "n_ev": 3, "remap": "both", "dups": True},
+    {"n_fasta": 2, "inputs": ["mq"], "n_ev": 3, "n_sets": 3, "remap": True, "quant": True, "several": DIG_OPTIONS},
+]
+
+
+def list_valued_options():
+    """options the tool's parser declares with nargs='+' (read from the source of the tree under test)"""
+    found = []
+    for rel in ("picked_group_fdr.py", "digestion_params.py"):
+        try:
+            src = (lib.REPO / "picked_group_fdr" / rel).read_text()
+        except OSError:
+            continue
+        for call in src.split("add_argument(")[1:]:
+            call = call.split("add_argument(")[0]
+            if 'nargs="+"' in call.replace(" ", "") or "nargs='+'" in call.replace(" ", ""):
+                names = [x for x in re.findall(r"[\"'](--[A-Za-z_\-]+)[\"']", call.split("help=")[0])]
+                if names:
+                    found.append(names[-1])
+    return sorted(set(found))
+
+
+def multi_valued(argv):
+    """options of an argv that are followed by more than one value ('--methods a,b' counts as two)"""
+    out, cur, n = [], None, 0
+    for a in list(argv) + ["--end"]:
+        if a.startswith("--"):
+            if cur and n > 1:
+                out.append(cur)
+            cur, n = a, 0
+        else:
+            n += len(a.split(",")) if cur == "--methods" else 1
+    return out
+
+
+def run_cli_once(case, hs):
+    """one process of the real command-line tool with PYTHONHASHSEED=hs on the files of `case`; every file it writes
+    into its (fresh) working directory is reported"""
+    d = Path(tempfile.mkdtemp(prefix="c07_"))
+    try:
+        for name, text in case["files"].items():
+            (d / name).write_text(text)
+        wd = d / "run"
+        wd.mkdir()
+        cmd = [lib.PY, "-m", "picked_group_fdr"] + list(case["argv"])
+        p = subprocess.run(cmd, capture_output=True, text=True, env=lib.impl_env({"PYTHONHASHSEED": hs}), timeout=900, cwd=str(wd))
+        files, lines = {}, {}
+        for f in sorted(wd.rglob("*")):
+            if f.is_file():
+                b = f.read_bytes()
+                files[str(f.relative_to(wd))] = b.decode("utf-8", "replace")
+                lines[str(f.relative_to(wd))] = b.count(b"\n") - 1
+        return {"hs": hs, "rc": p.returncode, "files": files, "lines": lines, "stderr": p.stderr[-600:]}
+    finally:
+        import shutil
+
+        shutil.rmtree(d, ignore_errors=True)
+
+
+def cli_runs_differ(case, rs):
+    """None when all processes returned the same code and wrote the same bytes, else a description"""
+    ref = rs[0]
+    for r in rs[1:]:
+        if (r["rc"], r["files"]) == (ref["rc"], ref["files"]):
+            continue
+        what = "exit codes %s / %s" % (ref["rc"], r["rc"])
+        for name in sorted(set(ref["files"]) | set(r["files"])):
+            a, b = ref["files"].get(name), r["files"].get(name)
+            if a is None or b is None:
+                what = "file %s is written by one process only" % name
+                break
+            if a != b:
+                la, lb = a.splitlines(), b.splitlines()
+                k = next((i for i, (x, y) in enumerate(zip(la, lb)) if x != y), min(len(la), len(lb)))
+                fa = la[k].split("\t")[:2] if k < len(la) else None
+                fb = lb[k].split("\t")[:2] if k < len(lb) else None
+                what = "%s differs from line %d on: %s / %s" % (name, k + 1, fa, fb)
+                break
+        return "command-line output differs between PYTHONHASHSEED=%s and %s (%s): %s" % (ref["hs"], r["hs"], describe_cli(case), what)
+    return None
+
+
+def describe_cli(case):
+    m = case.get("meta", {})
+    return "methods %s, %d fasta file(s), %s" % (m.get("methods"), m.get("n_fasta", 0), " ".join(multi_valued(case["argv"])) or "no multi-valued option")
+
+
 class P(Prop):
     id = "C07"
     quick_cases = 100
@@ -122,6 +226,9 @@ class P(Prop):
     def run_impl(self, case):
         """the call sequence on ONE reused MethodConfig (every call observed with the pipeline recorders, so that
         each can be compared with the Lean model of a call on a fresh object), then every call on a fresh object"""
+        if case.get("kind") == "cli-hashseed":  # a replayed command-line case of the extra stage
+            with ThreadPoolExecutor(8) as ex:
+                return {"cli_runs": list(ex.map(lambda hs: run_cli_once(case, hs), case["hashseeds"]))}
         from picked_group_fdr import methods
 
         cfg = methods.parse_method_toml(case["method"], use_pseudo_genes=False)
@@ -134,6 +241,8 @@ class P(Prop):
         return {"seq": [brief(o) for o in seq_full], "fresh": [brief(o) for o in fresh_full], "_rec": {"seq_full": seq_full}}
 
     def model_request(self, case, impl_out):
+        if case.get("kind") == "cli-hashseed":
+            return None  # set order of CPython is exercised, not modelled
         # one model call per real call: the model is a call on a FRESH configuration (PgFdr.Pipeline.run)
         return [pipeline.model_request(self._sub(case, pil), o) for pil, o in zip(case["inputs"], impl_out["_rec"]["seq_full"])]
 
@@ -151,9 +260,13 @@ class P(Prop):
         return out
 
     def impl_view(self, case, impl_out):
+        if case.get("kind") == "cli-hashseed":
+            return None
         return [pipeline.impl_view(self._sub(case, pil), o) for pil, o in zip(case["inputs"], impl_out["_rec"]["seq_full"])]
 
     def oracle(self, case, impl_out):
+        if case.get("kind") == "cli-hashseed":
+            return cli_runs_differ(case, impl_out["cli_runs"])
         for i, (a, b) in enumerate(zip(impl_out["seq"], impl_out["fresh"])):
             if a != b:
                 return f"call {i} on a reused configuration object differs from the same call on a fresh one (method {case['method']})"
@@ -167,15 +280,21 @@ class P(Prop):
         return None
 
     def nontrivial(self, case, impl_out):
+        if case.get("kind") == "cli-hashseed":
+            return any(n >= 2 for r in impl_out.get("cli_runs", []) for n in r["lines"].values())
         return sum(1 for r in impl_out.get("seq", []) if "rows" in r and r["rows"]) >= 2
 
     def features(self, case, impl_out):
+        if case.get("kind") == "cli-hashseed":
+            return ["cli-hashseed"] + ["cli-several:" + o for o in multi_valued(case["argv"])]
         f = ["method=" + case["method"], "calls=%d" % len(case["inputs"])]
         for r in impl_out.get("seq", []):
             f.append("call:" + ("rows" if "rows" in r else r.get("err", "?")))
         return f
 
     def shrink(self, case):
+        if case.get("kind") == "cli-hashseed":
+            return
         ins = case["inputs"]
         for i in range(len(ins)):
             if len(ins) > 1:
@@ -192,7 +311,7 @@ class P(Prop):
         rng = random.Random(seed * 7919 + 17)
         failures = []
         n_fresh = 10 if tier == "quick" else 120
-        n_cli = 8 if tier == "quick" else 60
+        n_cli = 10 if tier == "quick" else 80
         hashseeds = ["0", "1", "2", "3", str(rng.randint(4, 4000000))] + (["7", "11", "123", "999"] if tier == "thorough" else [])
         # (1) fresh-process reference
         lib.setup_impl_path()
@@ -222,59 +341,149 @@ class P(Prop):
                         failures.append({"case": case, "why": f"call {i} in a call sequence differs from a fresh process (PYTHONHASHSEED={hs}) for method {case['method']}",
                                          "impl": {"in_sequence": a, "fresh_process": b}})
                         break
-        # (2) CLI under several hash seeds: byte-identical output
-        cli_runs = 0
-        tmp = Path(tempfile.mkdtemp(prefix="c07_"))
-        try:
-            cases = []
-            for k in range(n_cli):
-                db = gen_cli.gen_database(rng)
-                psms = gen_cli.gen_psms(rng, db, n_exp=rng.randint(1, 3))
-                m = rng.choice([x for x in method_names() if self._mq_method(x)])
-                d = tmp / f"in{k}"
-                d.mkdir()
-                gen_cli.write_fasta(d / "db.fasta", db, rng)
-                gen_cli.write_evidence(d / "evidence.txt", psms)
-                if rng.random() < 0.5:
-                    (d / "quant").write_text("1")
-                cases.append((k, m, d, {"db": db, "psms": psms}))
-
-            def run_cli(args):
-                k, m, d, hs = args
-                out = d / f"pg_{hs}.txt"
-                cmd = [lib.PY, "-m", "picked_group_fdr", "--mq_evidence", str(d / "evidence.txt"), "--fasta", str(d / "db.fasta"),
-                       "--methods", m, "--protein_groups_out", str(out), "--min-length", "5", "--cleavages", "0"]
-                if (d / "quant").exists():
-                    cmd.append("--do_quant")
-                p = subprocess.run(cmd, capture_output=True, text=True, env=lib.impl_env({"PYTHONHASHSEED": hs}), timeout=900, cwd=str(d))
-                return (p.returncode, out.read_bytes() if out.exists() else None, p.stderr[-300:])
-
-            with ThreadPoolExecutor(16) as ex:
-                allargs = [(k, m, d, hs) for (k, m, d, pil) in cases for hs in hashseeds]
-                results = list(ex.map(run_cli, allargs))
-            cli_runs = len(results)
-            it = iter(results)
-            for (k, m, d, pil) in cases:
-                rs = [next(it) for _ in hashseeds]
-                ref = rs[0]
-                for hs, r in zip(hashseeds, rs):
-                    if (r[0], r[1]) != (ref[0], ref[1]):
-                        failures.append({"case": {"method": m, "inputs": pil, "hashseeds": [hashseeds[0], hs], "kind": "cli-hashseed"},
-                                         "why": f"CLI output for method {m} differs between PYTHONHASHSEED={hashseeds[0]} and {hs}",
-                                         "impl": {"rc": [ref[0], r[0]], "stderr": r[2]}})
-                        break
-        finally:
-            import shutil
-
-            shutil.rmtree(tmp, ignore_errors=True)
-        n_tables = sum(1 for r in results if r[0] == 0 and r[1] and r[1].count(b"\n") >= 2)
-        return {"evaluations": evals + cli_runs, "failures": failures,
-                "info": {"fresh_process_calls": evals, "cli_runs": cli_runs, "cli_runs_with_a_table": n_tables, "hashseeds": hashseeds}}
+        # (2) CLI under several hash seeds: byte-identical output.  Every case is a self-contained, replayable
+        # description (file texts + argv); the first cases follow fixed profiles so that every run covers several FASTA
+        # files / evidence files / digestion parameter sets / methods / map files, the rest is drawn at random.
+        cli_cases = []
+        for k in range(n_cli):
+            prof = CLI_PROFILES[k] if k < len(CLI_PROFILES) else None
+            c = self.gen_cli_case(rng, prof)
+            c["hashseeds"] = list(hashseeds)
+            cli_cases.append(c)
+        with ThreadPoolExecutor(16) as ex:
+            allargs = [(c, hs) for c in cli_cases for hs in hashseeds]
+            results = list(ex.map(lambda a: run_cli_once(*a), allargs))
+        cli_runs = len(results)
+        it = iter(results)
+        n_tables = 0
+        multi = {}
+        for c in cli_cases:
+            rs = [next(it) for _ in hashseeds]
+            n_tables += sum(1 for r in rs if r["rc"] == 0 and any(n >= 2 for n in r["lines"].values()))
+            for o in multi_valued(c["argv"]):
+                multi[o] = multi.get(o, 0) + 1
+            why = cli_runs_differ(c, rs)
+            if why:
+                failures.append({"case": c, "why": why, "impl": {"runs": [dict(r, stderr=r["stderr"][-300:]) for r in rs]}})
+        declared = list_valued_options()
+        info = {"fresh_process_calls": evals, "cli_runs": cli_runs, "cli_runs_with_a_table": n_tables, "hashseeds": hashseeds,
+                "cli_cases": len(cli_cases),
+                "cli_cases_with_several_values_of": dict(sorted(multi.items())),
+                "list_valued_options_declared_by_the_tool": declared,
+                "list_valued_options_of_other_input_formats_not_exercised": sorted(set(declared) & OTHER_INPUT_OPTIONS),
+                "list_valued_options_never_given_several_values": sorted(set(declared) - OTHER_INPUT_OPTIONS - set(multi))}
+        return {"evaluations": evals + cli_runs, "failures": failures, "info": info}
 
     # --- helpers for CLI inputs ---------------------------------------------------------
-    def _mq_method(self, name):
+    def _method_table(self):
+        """shipped methods of the default path: name -> (input kind 'mq' | 'perc', remaps, label)"""
         import tomllib
 
-        d = tomllib.loads((lib.REPO / "picked_group_fdr" / "methods" / f"{name}.toml").read_text())
-        st = d.get("scoreType", "")
-        return not any(x in st for x in ("Perc", "FragPipe", "Sage", "DIA-NN")) and d.get("sharedPeptides") != "razor"
+        out = {}
+        for name in method_names():
+            d = tomllib.loads((lib.REPO / "picked_group_fdr" / "methods" / f"{name}.toml").read_text())
+            st = d.get("scoreType", "")
+            if any(x in st for x in ("FragPipe", "Sage", "DIA-NN")):
+                continue
+            if "Perc" in st:
+                out[name] = ("perc", "remap" in st, d.get("label"))
+            else:
+                out[name] = ("mq", "no_remap" not in st, d.get("label"))
+        return out
+
+    def _mq_method(self, name):
+        t = self._method_table().get(name)
+        return bool(t) and t[0] == "mq"
+
+    def gen_cli_case(self, rng, profile=None):
+        """a self-contained command-line case: {"kind": "cli-hashseed", "files": {name: text}, "argv": [...], "meta": {...}}.
+        One to three FASTA files (the database is split so that proteins sharing peptides - and copies of a protein under
+        another identifier - sit in different files) or one/several peptide-protein map files, one to three evidence files
+        per input kind, one or several digestion parameter sets, one to three methods (remapping and not)."""
+        pf = dict(profile or {})
+        table = self._method_table()
+        use_map = pf.get("map", profile is None and rng.random() < 0.12)
+        n_fasta = pf.get("n_fasta", rng.choice([1, 2, 2, 3]))
+        kinds = pf.get("inputs") or rng.choice([["mq"], ["mq"], ["perc"], ["perc"], ["mq", "perc"]])
+        n_ev = pf.get("n_ev", rng.choice([1, 1, 2, 3]))
+        n_sets = pf.get("n_sets", n_ev if (n_ev > 1 and not use_map and rng.random() < 0.35) else 1)
+        remap = pf.get("remap", rng.choice([True, True, False, "both"]))
+        # --- methods
+        chosen = []
+        for kind in kinds:
+            def pick(want):
+                c = [m for m, t in table.items() if t[0] == kind and t[1] == want and t[2] not in {table[x][2] for x in chosen}]
+                c = c or [m for m, t in table.items() if t[0] == kind and t[1] == want]
+                return rng.choice(sorted(c)) if c else None
+            wants = [True, False] if remap == "both" else [bool(remap)]
+            for w in wants:
+                m = "picked_protein_group" if (pf.get("default_method") and kind == "perc" and w and "picked_protein_group" in table) else pick(w)
+                if m and m not in chosen:
+                    chosen.append(m)
+        if not chosen:
+            chosen = [rng.choice(sorted(table))]
+        if remap == "both" and rng.random() < 0.5:
+            chosen.reverse()
+        # --- database
+        db = gen_cli.gen_database(rng, n_prot=rng.choice([None, None, 6, 8]))
+        if pf.get("dups", rng.random() < 0.5):
+            db = gen_cli.add_duplicates(rng, db)
+        files, argv = {}, []
+        if use_map:
+            n_map = pf.get("n_map", rng.choice([1, n_ev]))
+            names = []
+            for i in range(n_map):
+                files["map%d.tsv" % i] = gen_cli.peptide_protein_map_text(db, min_len=rng.choice([5, 6]), mc=rng.choice([0, 0, 1]))
+                names.append("../map%d.tsv" % i)
+            argv += ["--peptide_protein_map"] + names
+            parts = []
+        else:
+            parts = gen_cli.split_database(rng, db, n_fasta)
+            if rng.random() < 0.3:
+                rng.shuffle(parts)
+            names = []
+            for i, part in enumerate(parts):
+                files["db%d.fasta" % i] = "".join(gen_cli.fasta_text(part, rng))
+                names.append("../db%d.fasta" % i)
+            argv += ["--fasta"] + names
+        # --- evidence
+        psms = gen_cli.gen_psms(rng, db, n_exp=rng.randint(1, 3))
+        for kind in kinds:
+            names = []
+            for i, rows in enumerate(gen_cli.split_psms(rng, psms, n_ev)):
+                name = ("evidence%d.txt" if kind == "mq" else "pout%d.txt") % i
+                files[name] = gen_cli.evidence_text(rows) if kind == "mq" else gen_cli.percolator_text(rows)
+                names.append("../" + name)
+            argv += ["--mq_evidence" if kind == "mq" else "--perc_evidence"] + names
+        argv += ["--methods", ",".join(chosen), "--protein_groups_out", "pg.txt"]
+        # --- digestion parameters: every flag is omitted, given once, or given once per parameter set
+        if not use_map:
+            vals = {"--enzyme": ["trypsin", "trypsin", "trypsinp", "lys-c", "arg-c"], "--digestion": ["full", "full", "full", "semi"],
+                    "--min-length": [5, 5, 6, 7], "--max-length": [30, 60, 60], "--cleavages": [0, 0, 1, 2], "--special-aas": ["KR", "KR", "K", "none", "R"]}
+            several = set()
+            if n_sets > 1 and pf.get("several"):
+                several = set(pf["several"])
+            elif n_sets > 1:
+                several = {o for o in DIG_OPTIONS if rng.random() < 0.4} or {rng.choice(["--min-length", "--cleavages", "--enzyme"])}
+            if n_sets == 1 and rng.random() < 0.08:
+                argv += ["--enzyme", "no_enzyme"] if rng.random() < 0.5 else ["--digestion", "none"]
+                argv += ["--min-length", "5", "--max-length", "14"]
+            else:
+                for o in DIG_OPTIONS:
+                    if o in several:
+                        argv += [o] + [str(rng.choice(vals[o])) for _ in range(n_sets)]
+                    elif o in ("--min-length", "--cleavages") or rng.random() < 0.3:
+                        argv += [o, str(rng.choice(vals[o]))]
+        if pf.get("quant", kinds == ["mq"] and rng.random() < 0.5):
+            argv.append("--do_quant")
+            if rng.random() < 0.5:
+                argv += ["--lfq_min_peptide_ratios", "1"]
+        if rng.random() < 0.3:
+            argv.append("--keep_all_proteins")
+        if rng.random() < 0.3:
+            argv += ["--protein_group_fdr_threshold", repr(rng.choice(pipeline.THRESHOLDS))]
+        argv.append("--suppress_missing_peptide_warning")
+        meta = {"methods": chosen, "n_fasta": len(parts), "n_evidence": n_ev, "n_param_sets": n_sets, "inputs": kinds,
+                "peptides_shared_across_fasta_files": len(gen_cli.shared_across_files(parts)) if parts else 0,
+                "proteins": len(db)}
+        return {"kind": "cli-hashseed", "files": files, "argv": argv, "meta": meta}
